@@ -15,7 +15,8 @@ import re
 from .. import tlc
 
 NAMES = {"a": "Abc", "b": "Bcd"}
-DEFS = "(Definition/Abc, (Action)), (Definition/Bcd, (Agent))"
+DEFS = "(Definition/Abc, (Action, Condition-variable/Va)), (Definition/Bcd, (Agent, Condition-variable/Vb))"
+DEFVAR = {"a": "va.abc", "b": "vb.bcd"}      # factor column of the variable a definition carries: <variable>.<definition>
 PROC_TAGS = ["Red", "Green", "Blue", "Square", "Circle", "Triangle", "Cross", "Ellipse"]
 PLAIN_TAGS = ["Sensory-event", "Agent-action", "Data-feature", "Experiment-control"]
 _G = {}
@@ -42,6 +43,8 @@ def concretise(case, rng):
     plain = {}
     nplain = 0
     parts = {j: [] for j in range(1, len(times) + 1)}
+    cv = rng.random() < 0.6      # contents carry a type variable of their own (Condition-variable/P<n>)
+    varof = {}                   # proc id -> factor columns it switches on
     for j, (t, al) in enumerate(zip(times, acts), 1):
         for a in al:
             pid = a["id"]
@@ -53,8 +56,12 @@ def concretise(case, rng):
                     tokens[pid] = "Def/" + sp
                 else:
                     tag = PROC_TAGS[pid % len(PROC_TAGS)]
-                    txt = "(Def/%s, Onset, (%s))" % (sp, tag) if pid % 2 else "(Onset, (%s), Def/%s)" % (tag, sp)
                     tokens[pid] = tag
+                    if cv:
+                        varof.setdefault(pid, []).append("p%d" % pid)
+                        tag = "%s, Condition-variable/P%d" % (tag, pid) if pid % 4 < 2 else "Condition-variable/P%d, %s" % (pid, tag)
+                    txt = "(Def/%s, Onset, (%s))" % (sp, tag) if pid % 2 else "(Onset, (%s), Def/%s)" % (tag, sp)
+                varof.setdefault(pid, []).append(DEFVAR[a["key"]])
             elif a["a"] == "off":
                 sp = _variant(NAMES[a["key"]], 7 - (pid % 8))
                 txt = "(Def/%s, Offset)" % sp
@@ -62,8 +69,11 @@ def concretise(case, rng):
             else:
                 # Duration processes come in pairs with IDENTICAL content: two different ongoing processes may read the same
                 tag = PROC_TAGS[(pid // 2) % len(PROC_TAGS)]
-                txt = "(Duration/%s, (%s))" % (_dur_text(a["d"], rng), tag)
                 tokens[pid] = tag
+                if cv:
+                    varof.setdefault(pid, []).append("q%d" % (pid // 2))
+                    tag = "%s, Condition-variable/Q%d" % (tag, pid // 2)
+                txt = "(Duration/%s, (%s))" % (_dur_text(a["d"], rng), tag)
             if can_delay and j > 1 and rng.random() < 0.3:
                 # Delay-shifted: written in the row of an EARLIER time point of the same history
                 jc = rng.randrange(1, j)
@@ -94,7 +104,7 @@ def concretise(case, rng):
     if ends and rng.random() < 0.3:
         off = -rng.choice(ends)
     out = [(fmt % ((r[0] + off) / 1000.0), r[2]) for r in rows]
-    return out, tokens, plain, off
+    return out, tokens, plain, off, varof
 
 
 def execute(c):
@@ -110,6 +120,15 @@ def execute(c):
         res = {"onsets": onsets, "base": list(em.base), "contexts": list(em.contexts),
                "resid": [str(h) for h in em.hed_strings],
                "events": [[(str(e.contents), e.start_index, e.end_index) for e in lst] for lst in em.event_list]}
+        # downstream: factor vectors of the type variables (two entry points), computed on the same manager
+        from hed.tools.analysis.hed_type import HedType
+        from hed.tools.analysis.hed_type_manager import HedTypeManager
+        fdf = HedType(em, "f", "condition-variable").get_type_factors()
+        res["factors"] = {} if fdf is None else {str(col): [int(x) for x in fdf[col]] for col in fdf.columns}
+        tm = HedTypeManager(em)
+        tm.add_type("condition-variable")
+        fdf2 = tm.get_factor_vectors("condition-variable")
+        res["factors2"] = {} if fdf2 is None else {str(col): [int(x) for x in fdf2[col]] for col in fdf2.columns}
         # histories on one manager: filtered views are asked for (types removed: the plain tags of this file), then the
         # manager is looked at again - what it reports for every point must be what it reported before
         types = sorted({re.split(r"[/ ]", p)[0] for ps in c["plain"].values() for p in ps}) or ["Condition-variable"]
@@ -189,6 +208,26 @@ def judge(c):
                 prob.append(("residual-lost", "time point %d: plain tag %s missing from the remaining annotation %r" % (j, p, resid)))
         if found(resid) or re.search(r"\b(Onset|Offset|Duration)\b", resid):
             prob.append(("residual-temporal", "time point %d: remaining annotation still holds temporal groups: %r" % (j, resid)))
+    # factor vectors: a variable is on at a time point exactly when a process carrying it starts or is context there
+    if "factors" in res and "varof" in c:
+        varof = {int(k): v for k, v in c["varof"].items()}
+        cols = sorted({v for vs in varof.values() for v in vs} | set(res["factors"]))
+        if res["factors"] != res.get("factors2"):
+            prob.append(("factor-entry-points", "HedType gives %s, HedTypeManager %s" % (res["factors"], res.get("factors2"))))
+        for col in cols:
+            vec = res["factors"].get(col, [0] * len(res["onsets"]))
+            if len(vec) != len(res["onsets"]):
+                prob.append(("factor-length", "factor %s has %d entries for %d events" % (col, len(vec), len(res["onsets"]))))
+                continue
+            for j in range(1, len(times) + 1):
+                entries = [i for i in tp_of if tp_of[i] == j]
+                got = int(any(vec[i] for i in entries))
+                want = int(any(col in varof.get(p, []) for p in exp[j - 1]["active"]))
+                if got != want:
+                    prob.append(("factor-%s" % ("extra" if got else "missing"),
+                                 "factor %s at time point %d is %d, specification %d (active processes %s)"
+                                 % (col, j, got, want, exp[j - 1]["active"])))
+                    break
     av = res.get("after_views")
     if av:
         for fld in ("base", "contexts", "resid"):
@@ -247,9 +286,9 @@ def run(ctx):
         if quick and (n + ctx.seed) % 2:
             continue
         rng = random.Random(ctx.seed * 104729 + n)
-        rows, tokens, plain, off = concretise(j, rng)
+        rows, tokens, plain, off, varof = concretise(j, rng)
         cases.append({"n": n, "times": j["times"], "acts": j["acts"], "expected": j["expected"], "endidx": j["endidx"],
-                      "rows": rows, "tokens": tokens, "plain": plain, "off": off})
+                      "rows": rows, "tokens": tokens, "plain": plain, "off": off, "varof": varof})
     with mp.get_context("fork").Pool(14, initializer=_init, initargs=(None,)) as pool:
         done = pool.map(execute, cases, chunksize=64)
     ndrift = 0
@@ -260,7 +299,7 @@ def run(ctx):
         ndrift += bool(drift)
         for kind, text in prob:
             ctx.violation(kind, "%s; rows=%s" % (text, c["rows"]),
-                          {k: c[k] for k in ("times", "acts", "expected", "endidx", "rows", "tokens", "plain")})
+                          {k: c[k] for k in ("times", "acts", "expected", "endidx", "rows", "tokens", "plain", "off", "varof")})
     ctx.note("spec_drift_equal_onset_followers", ndrift)
     # unordered files must be rejected
     _init(None)
